@@ -411,7 +411,7 @@ def shapes(tier, seed):
                              dict(opts=dict(molecule_key="H2", qubit_mapping=mp, up_then_down=utd, ansatz=BuiltInAnsatze.UCCSD), patt="ss", n=n, pen=pen),
                              modules=MODS, max_paths=64))
     # frozen-orbital molecule (active electron number differs from the total): 6 spin-orbitals
-    for mp, utd, n in (("scbk", True, 4), ("jw", False, 6), ("bk", True, 6)):
+    for mp, utd, n in (("scbk", True, 4), ("jw", False, 6)) + ((("bk", True, 6),) if tier == "thorough" else ()):      # bk: ~80 s per shape
         for which in ("N", "Sz"):
             out.append(Shape(f"symmetry/{which}/H4f/{mp}/utd={int(utd)}", h_symmetry,
                              dict(opts=dict(molecule_key="H4f", qubit_mapping=mp, up_then_down=utd, ansatz=BuiltInAnsatze.UCCSD), patt=None, n=n, which=which),
